@@ -110,7 +110,7 @@ PROPS = {
 # Properties without a check yet are listed here (kept current; see DESIGN.md section 7).
 _PENDING = "machinery for this property is not built yet in this revision (planned: Lean model + theorem + correspondence, see DESIGN.md section 4); not claimed until its check exists"
 # checks that exist but whose proofs are not complete yet are not claimed in MANIFEST.json
-NOT_READY = {"C04", "C05", "C06", "C07", "C13"}
+NOT_READY = set()
 NOT_APPLICABLE = {pid: _PENDING for pid in ["C%02d" % i for i in range(1, 21)] if pid not in PROPS or pid in NOT_READY}
 
 MANIFEST_TEXT = {
